@@ -613,8 +613,9 @@ func (r *CPUSuppress) adjustByCfsQuota(cpuQuantity *resource.Quantity, node *cor
 	}
 
 	minQuotaDelta := float64(node.Status.Capacity.Cpu().Value()) * float64(system.DefaultCPUCFSPeriod) * suppressBypassQuotaDeltaRatio
-	//  delta is large enough
-	if math.Abs(float64(newBeQuota)-float64(currentBeQuota)) < minQuotaDelta && newBeQuota != beMinQuota {
+	//  delta is large enough; the unset quota (-1) is not a value to compare the target with, otherwise BE stays
+	//  unlimited when the target is small
+	if math.Abs(float64(newBeQuota)-float64(currentBeQuota)) < minQuotaDelta && newBeQuota != beMinQuota && currentBeQuota != beUnsetQuota {
 		klog.Infof("suppressBECPU: quota delta is too small, bypass suppress.reason: current quota: %d, target quota: %d, min quota delta: %f",
 			currentBeQuota, newBeQuota, minQuotaDelta)
 		return
